@@ -172,3 +172,32 @@ func init() {
 		s.obs("enc %s", showHeader(h))
 	})
 }
+
+func init() {
+	// recreate NAME k s n ... m M x X : Create over whatever file is there (open flag without O_EXCL),
+	// Sync, Close: the file has exactly the length its new header describes
+	register("recreate", func(s *sess, tk []string) {
+		f := s.file(tk[1])
+		if f.db != nil {
+			f.db.Close()
+			f.db = nil
+		}
+		l, rest := parseLayout(tk[2:])
+		m := wt.AggregationMethod(atoi(rest[1]))
+		x := math.Float32frombits(uint32(hex64(rest[3])))
+		db, err := wt.Create(f.path, l, m, x, wt.WithoutFlock(), wt.WithOpenFileFlag(os.O_RDWR|os.O_CREATE))
+		if err != nil {
+			s.obs("recreate err")
+			return
+		}
+		err = db.Sync()
+		db.Close()
+		st, serr := os.Stat(f.path)
+		must(serr)
+		if err != nil {
+			s.obs("recreate syncerr")
+			return
+		}
+		s.obs("recreate ok size=%d", st.Size())
+	})
+}
